@@ -154,6 +154,8 @@ def run(ctx: Ctx) -> Result:
             res.count("eager_response")
         for kind, what in oracle(c, r, intern):
             res.failures.append(Failure(kind, what, c, {"obs": r["obs"], "places": r["places"]}))
+    eager_vs_time_limit(ctx, res)
+    redelivery_while_finishing(ctx, res)
     res.samples = [{"coq": pairs[i][1]["term"], "impl_obs": pairs[i][1]["obs"]} for i in (0, len(pairs) // 2, len(pairs) - 1)]
     bad, mo = runmodel.run_cases("c02", "Sched Handle Ladder", "pcase_obs", [(r["term"], r["obs"]) for _, r in pairs])
     for i in bad:
@@ -162,6 +164,129 @@ def run(ctx: Ctx) -> Result:
     res.model_cases = len(pairs)
     res.traces_validated = len(pairs) - len(bad)
     return res
+
+
+async def _eager_race(loop, op: str, pre_us: int, round_trip: float, recurring: bool) -> dict:
+    """an actor that sleeps `pre_us` of its 1 s time limit and then answers eagerly over a broker whose calls take `round_trip`"""
+    import asyncio
+    from repid import BasicConverter, MessageDependency, Router
+    from ..clock import CLOCK
+    from ..pyparams import mk_params
+    from ..world import MemMessage, World, key
+    w = World(results=False, args=False)
+    w.mb.round_trip = round_trip
+    await w.declare("q")
+    router = Router()
+
+    async def act(m: MessageDependency) -> None:
+        await asyncio.sleep(pre_us / 1_000_000)
+        await getattr(m, op)()
+    act.__annotations__ = {"m": MessageDependency, "return": None}     # (this module postpones the evaluation of annotations)
+    router.actor(act, name="act", queue="q", converter=BasicConverter)
+    p = mk_params(ts=CLOCK.now_us(), timeout_us=1 * S, max_amount=2, by=10 * S if recurring else None)
+    w.mb.queues["q"].simple.put_nowait(MemMessage(key("m1", "act"), "", p))
+    loop.max_iterations = loop.iteration + 400_000
+    err = None
+    try:
+        await w.worker([router], messages_limit=1, tasks_limit=1, graceful_shutdown_time=5.0).run()
+    except Exception as e:  # noqa: BLE001
+        err = repr(e)
+    await asyncio.sleep(0.2)
+    terms = [(e["op"], e["ok"]) for e in w.log.events if e["kind"] == "broker" and e["op"] in ("ack", "nack", "reject", "requeue")]
+    return {"terms": terms, "places": w.place_of("q", "m1"), "err": err}
+
+
+def eager_vs_time_limit(ctx: Ctx, res: Result) -> None:
+    """Oracle only: whatever instant the time limit strikes relative to an eager response, the delivery gets exactly one
+    terminal action and the message is in at most one place afterwards."""
+    cases = [(op, pre, rt, rec) for op in ("ack", "nack", "reject", "retry", "force_retry", "reschedule")
+             for pre in (900_000, 960_000, 975_000, 990_000, 999_000, 1_000_000, 1_020_000)
+             for rt in (0.0, 0.03) for rec in (False, True)]
+    outs = []
+
+    async def main(loop):
+        loop.set_exception_handler(lambda l, c: None)
+        for c in cases:
+            outs.append(await _eager_race(loop, *c))
+    run_virtual(main)
+    seen = set()
+    for (op, pre, rt, rec), r in zip(cases, outs):
+        res.count("eager_vs_time_limit_runs")
+        res.add_case(f"eager_race:{op}:{pre}:{rt}:{rec}:{r['terms']}", True)
+        ok = [t for t in r["terms"] if t[1]]
+        if (r["err"] or len(ok) != 1 or len(r["places"]) > 1) and "race" not in seen:
+            seen.add("race")
+            res.failures.append(Failure("eager_response_and_time_limit_dispose_twice",
+                                        f"actor sleeps {pre} us of its 1 s time limit, then {op}() over a broker whose calls take {rt} s "
+                                        f"(recurring {rec}): terminal calls {r['terms']}, message afterwards in {r['places']} {r['err'] or ''}",
+                                        {"eager_race": {"op": op, "pre_us": pre, "round_trip": rt, "recurring": rec}}, None))
+
+
+async def _redelivery(loop, op: str, cb_s: float, by_us: int, second: str) -> dict:
+    """a recurring job whose first delivery answers eagerly (`op`) and then spends `cb_s` seconds in a callback; its successor is
+    due after `by_us` and is delivered (tasks_limit 2) while the first delivery is still being finished; the second run
+    ends as `second` says"""
+    import asyncio
+    from datetime import timedelta
+    from repid import BasicConverter, MessageDependency, Router
+    from ..clock import CLOCK
+    from ..pyparams import mk_params
+    from ..world import MemMessage, World, key
+    w = World(results=False, args=False)
+    await w.declare("q")
+    router = Router()
+    n = {"runs": 0}
+
+    async def act(m: MessageDependency) -> None:
+        n["runs"] += 1
+        if n["runs"] == 1:
+            async def cb():
+                await asyncio.sleep(cb_s)
+            m.add_callback(cb)
+            if op == "retry":
+                await m.retry(timedelta(microseconds=by_us))
+            else:
+                await m.reschedule()
+        elif second == "raise":
+            raise ValueError("second run fails")
+    act.__annotations__ = {"m": MessageDependency, "return": None}
+    router.actor(act, name="act", queue="q", converter=BasicConverter)
+    p = mk_params(ts=CLOCK.now_us(), timeout_us=60 * S, by=by_us, max_amount=1)
+    w.mb.queues["q"].simple.put_nowait(MemMessage(key("m1", "act"), "", p))
+    loop.max_iterations = loop.iteration + 400_000
+    err = None
+    try:
+        await w.worker([router], messages_limit=2, tasks_limit=2, graceful_shutdown_time=10.0).run()
+    except Exception as e:  # noqa: BLE001
+        err = repr(e)
+    await asyncio.sleep(0.2)
+    terms = [(e["op"], e["ok"]) for e in w.log.events if e["kind"] == "broker" and e["op"] in ("ack", "nack", "reject", "requeue")]
+    return {"runs": n["runs"], "terms": terms, "places": w.place_of("q", "m1"), "err": err}
+
+
+def redelivery_while_finishing(ctx: Ctx, res: Result) -> None:
+    """Oracle only: two deliveries of one message id overlap (the first is still in its callbacks): each gets its own terminal action."""
+    cases = [(op, cb, by, second) for op in ("reschedule", "retry") for cb in (0.5, 3.0) for by in (100_000, 1_000_000)
+             for second in ("return", "raise")]
+    outs = []
+
+    async def main(loop):
+        loop.set_exception_handler(lambda l, c: None)
+        for c in cases:
+            outs.append(await _redelivery(loop, *c))
+    run_virtual(main)
+    reported = False
+    for c, r in zip(cases, outs):
+        res.count("overlapping_deliveries_runs")
+        res.add_case(f"overlap:{c}:{r['terms']}", r["runs"] == 2)
+        ok = [t for t in r["terms"] if t[1]]
+        if (r["err"] or (r["runs"] == 2 and len(ok) != 2) or len(r["places"]) > 1) and not reported:
+            reported = True
+            res.failures.append(Failure("overlapping_deliveries_share_a_disposition",
+                                        f"first delivery answers with {c[0]}() and spends {c[1]} s in a callback, the successor (due after {c[2]} us) "
+                                        f"is delivered meanwhile and ends by {c[3]}: {r['runs']} executions, terminal calls {r['terms']}, message "
+                                        f"afterwards in {r['places']} {r['err'] or ''}",
+                                        {"overlap": {"op": c[0], "cb_s": c[1], "by_us": c[2], "second": c[3]}}, None))
 
 
 def _fix(case):
@@ -175,9 +300,28 @@ def _fix(case):
 
 
 def replay(ctx: Ctx, rp: dict) -> dict:
-    case = _fix(rp.get("case") or rp["first_diverging_case"]["case"])
-    intern = ct.Interner()
+    raw = rp.get("case") or rp["first_diverging_case"]["case"]
     out = {}
+    if "eager_race" in raw:
+        e = raw["eager_race"]
+
+        async def emain(loop):
+            loop.set_exception_handler(lambda l, c: None)
+            out.update(await _eager_race(loop, e["op"], e["pre_us"], e["round_trip"], e["recurring"]))
+        run_virtual(emain)
+        out["fails"] = bool(out["err"] or len([t for t in out["terms"] if t[1]]) != 1 or len(out["places"]) > 1)
+        return out
+    if "overlap" in raw:
+        e = raw["overlap"]
+
+        async def omain(loop):
+            loop.set_exception_handler(lambda l, c: None)
+            out.update(await _redelivery(loop, e["op"], e["cb_s"], e["by_us"], e["second"]))
+        run_virtual(omain)
+        out["fails"] = bool(out["err"] or (out["runs"] == 2 and len([t for t in out["terms"] if t[1]]) != 2) or len(out["places"]) > 1)
+        return out
+    case = _fix(raw)
+    intern = ct.Interner()
 
     async def main(loop):
         loop.set_exception_handler(lambda l, c: None)
